@@ -1005,9 +1005,13 @@ func genQuery(t *rapid.T, sc schema, written map[string]map[string]bool) mQuery 
 			}
 		}
 		md.Fields = fs
-	} // else: the metric does not exist: "metric not found" = empty answer
+	} // else: the metric does not exist (yet): "metric not found" = empty answer
+	absent := len(written[md.Name]) == 0
 	// select list
 	ni := rapid.SampledFrom([]int{1, 1, 2, 3}).Draw(t, "nItems")
+	if absent {
+		ni = 1 // should the metric come into being later, a statement naming a field it lacks is rejected as a whole
+	}
 	used := map[string]string{} // field -> aggregate already requested
 	names := map[string]bool{}
 	for i := 0; i < ni; i++ {
